@@ -13,7 +13,7 @@ from pyvc.harness import Contract
 from pyvc.spec import (And, Or, Not, Implies, Iff, forall, exists, eq, same, fld, has, keys, items, is_list, returned, raised,
                        fields_same, same_obj, isinst, is_none, Ite, length, is_true, is_false, is_bool, is_obj, fullmatch,
                        int_ok, int_val, before, after, is_str, as_str, json_valid)
-from pyvc.values import PList, PDict, JsonText, is_sym
+from pyvc.values import PList, PGenList, PDict, JsonText, is_sym
 from fim.slivers.capacities_labels import Labels, Capacities, JSONField, LabelException
 from fim.slivers.tags import Tags
 from fim.slivers.json_data import UserData, MeasurementData, LayoutData
@@ -91,6 +91,8 @@ def gen_value(g, form, name='v'):
         return PList([g.text(name + '0')])
     if form == 'list2':
         return PList([g.text(name + '0'), g.text(name + '1')])
+    if form == 'listN':
+        return g.genlist(name)           # ANY length, no bound: decided with the loop rule (pyvc.interp.gen_loop)
     raise ValueError(form)
 
 
@@ -169,17 +171,20 @@ def labels_set_fields_summary(I, args, kwargs):
     kwargs = dict(kwargs)
     forgiving = args[1] if len(args) > 1 else kwargs.pop('forgiving', False)
     for k, v in kwargs.items():
-        if not (is_list(v) or kind_of(v) in ('str', 'U')):
-            I.raise_(Rejected)
         if k not in LABEL_FIELDS:
-            # the type asserts come first in the real code: non-string values are rejected even for unknown fields
+            # an unknown key is skipped (forgiving) or refused whatever its value is: the value of a field this version does
+            # not know is not this version's business (C03: decoding tolerates unknown fields)
             if forgiving is True:
                 continue
             if forgiving is False:
                 I.raise_(LabelException, 'no such field')
             raise NotImplementedError('symbolic forgiving flag')
-        ok = value_in_domain(k, v)
-        if not I.ctx.branch(ok):
+        if not (is_list(v) or kind_of(v) in ('str', 'U')):
+            I.raise_(Rejected)
+        if isinstance(v, PGenList):
+            if not I.branch_all(v, lambda e: And(is_str(e), in_domain(k, e))):
+                I.raise_(Rejected)
+        elif not I.ctx.branch(value_in_domain(k, v)):
             I.raise_(Rejected)
         I.dict_set(self.d, k, v)
     return self
@@ -191,7 +196,7 @@ LABELS_SET_FIELDS = {T + 'Labels._set_fields': labels_set_fields_summary}
 def make_label_contracts():
     out = []
     for field in LABEL_FIELDS:
-        forms = ['str', 'list1'] + (['list2'] if field in ('mac', 'vlan') else []) + (['list0'] if field == 'bdf' else [])
+        forms = ['str', 'listN', 'list1'] + (['list2'] if field in ('mac', 'vlan') else []) + (['list0'] if field == 'bdf' else [])
         for form in forms:
             out.append(_set_fields_contract(form, field))
     out += _entry_point_contracts()
@@ -199,7 +204,7 @@ def make_label_contracts():
 
 
 def _bound_text(form):
-    return None if form == 'str' else 'list-valued label of length %s (list forms are checked for lengths 0..2)' % form[-1]
+    return None if form in ('str', 'listN') else 'list-valued label of length %s (list forms are checked for lengths 0..2)' % form[-1]
 
 
 def _set_fields_contract(form, field):
@@ -230,7 +235,7 @@ def _entry_point_contracts():
     """constructor, copy-with-changes, decoding from text, encode/decode again: verified MODULARLY against the contract of
     Labels._set_fields (its body is not re-executed here), for every field and every form at once"""
     out = []
-    FORMS = ['str', 'list0', 'list1', 'list2']
+    FORMS = ['str', 'listN', 'list0', 'list1', 'list2']
 
     def pick_kv(g):
         k = g.pick(LABEL_FIELDS, 'field')
